@@ -437,7 +437,58 @@ def pointer_size_history_harness(ctx):
         bo, order, ", nested" if nested else "", "; ".join(bad[:3])))
 
 
+def decode_history_harness(which):
+    """decoding is a function of the BYTES: what an earlier decode (in this process) returned has no influence on a later one.  Every first
+    byte the library models is decoded right after every other first byte OF THE SAME CLASS (the fused-operand ranges: DW_OP_lit0..31,
+    reg0..31, breg0..31, DW_CFA_advance_loc / offset / restore carry the operand in the opcode byte) and right after one byte of another
+    class; the object must equal the one a decode with no history returns for these bytes, and consume as many bytes."""
+    def harness(ctx):
+        import io
+        base, storage = registry(which)
+        bo = ["little", "big"][ctx.choose(2, "byteorder")]
+        tail = bytes(range(1, 17))
+        by_cls = {}
+        for b, c in sorted(storage.opcodes.items()):
+            by_cls.setdefault(c, []).append(b)
+
+        def dec(b):
+            try:
+                obj, n = base.decode(io.BytesIO(bytes([b]) + tail), bo, 8)
+                return ("ok", repr(obj), n)
+            except Exception as ex:     # noqa
+                return ("exc", type(ex).__name__)
+        # two references: the same bytes decoded again after a decode of ANOTHER class, and the standard's rule for fused operands
+        # (the operand carried by the opcode byte is its distance from the first byte of the range)
+        bad = []
+        pairs = 0
+        for c, bs in by_cls.items():
+            other = next(b for k, v in by_cls.items() if k is not c for b in v)
+            for b1 in bs + [other]:
+                for b2 in bs:
+                    pairs += 1
+                    dec(b1)
+                    got = dec(b2)
+                    dec(other)
+                    again = dec(b2)
+                    if got != again:
+                        bad.append("%s: byte %#x decodes as %s after %#x and as %s after %#x" % (c.__name__, b2, got, b1, again, other))
+                    if len(bs) > 1 and got[0] == "ok":
+                        # fused range: the operand carried by the opcode byte is the distance from the first byte of the range
+                        want = b2 - bs[0]
+                        import dataclasses
+                        obj, _ = base.decode(io.BytesIO(bytes([b2]) + tail), bo, 8)
+                        first = getattr(obj, dataclasses.fields(obj)[0].name) if dataclasses.fields(obj) else None
+                        if first != want:
+                            bad.append("%s: byte %#x (offset %d in its range) decoded after %#x carries operand %r" % (c.__name__, b2, want, b1, first))
+        ctx.cover("enumerated")
+        ctx.prove("codec/%s/decode-is-a-function-of-the-bytes-whatever-was-decoded-before" % which, z3.BoolVal(not bad), note="%s, %d ordered pairs: %s" % (bo, pairs, "; ".join(bad[:3])))
+        ctx.prove("codec/%s/decode-history-enumeration-is-not-vacuous" % which, z3.BoolVal(pairs > 500 and any(len(v) > 1 for v in by_cls.values())))
+    return harness
+
+
 def jobs(tier="quick", seed=0):
+    for which in ("op", "cfa"):
+        yield Job("C14/decode-history/" + which, decode_history_harness(which), kind="E", func="gtirb_rewriting.dwarf._encodable:_OpcodeEncodable.decode (decoding keeps no state)", expect_cover=("enumerated",))
     yield Job("C14/pointer-size-history", pointer_size_history_harness, kind="E", func="gtirb_rewriting.dwarf._encoders:_UIntPtrEncoder (shared encoder objects keep no state)", expect_cover=("enumerated",))
     for which in ("op", "cfa"):
         base, seen = classes(which)
